@@ -5,6 +5,7 @@ CONSTANTS
   SkipFix = TRUE
   CctFix = TRUE
   SelfFailFix = TRUE
+  FlushFix = TRUE
   QMax = 100
   PPInterval = 2
   TestMode = TRUE
